@@ -771,6 +771,22 @@ def run_sched(res, tier, n2t):
             fam_counts[f"{name}/{fam}"] = fam_counts.get(f"{name}/{fam}", 0) + 1
     t1 = time.time()
     obs = common.pool_map(_sched_worker, tasks, chunksize=8)
+    # A thread that ends in an exception of the ENVIRONMENT (OSError: Pillow's "cannot open resource" when the machine
+    # is out of file descriptors, MemoryError) is not evidence of interference.  The scheduler is deterministic, so the
+    # same schedule is run twice more in fresh worker processes: interference reproduces, a starved machine does not.
+    env = ("OSError", "MemoryError", "BlockingIOError", "TimeoutError")
+    suspects = [k for k, o in enumerate(obs)
+                if o.get("status") == "ok" and o.get("errors")
+                and all(e[1] and len(e[1]) > 1 and e[1][1] in env for e in o["errors"])
+                and all(s or any(e[0] == i for e in o["errors"]) for i, s in enumerate(o["same"]))]
+    for k in suspects[:20]:
+        again = common.pool_map(_sched_worker, [tasks[k]] * 4, chunksize=1)[:2]
+        if all(a.get("status") == "ok" and all(a["same"]) for a in again):
+            res.count("schedule:environment-error-not-reproduced")
+            res.notes.append(f"schedule {tasks[k]['segments']} of set {tasks[k]['set']}: a thread raised "
+                             f"{obs[k]['errors'][0][1][1:3]} once; the same schedule run twice more in fresh processes "
+                             f"returned the solo documents — counted as an environment error, not as interference")
+            obs[k] = again[0]
     res.extra["schedule_runs_s"] = round(time.time() - t1, 2)
     res.extra["schedule_runs_cpu_s"] = round(sum(o.get("cpu", 0) for o in obs), 1)
     res.extra["schedule_runs_cpu_s_note"] = ("process CPU time summed over all scheduled runs (build + threads under "
